@@ -159,7 +159,7 @@ def run(scn):
             spec["gw"] = A.resolve_gw({"method": meth, "series": [[0, 2.4], [400, 1.0], [600, 1.8]]}, spec["start"])
         if scn.get("sched"):
             sd = A._d(spec["start"])
-            spec["irr"] = {"method": 3, "kw": {"MaxIrr": 40}, "schedule": [[A._f(sd + dt.timedelta(days=k)), 20.0] for k in (5, 30, 60, 380, 420, 700)]}
+            spec["irr"] = {"method": 3, "kw": {"MaxIrr": 40}, "schedule": [[A._f(sd + dt.timedelta(days=k)), 20.0] for k in (-300, -250, -45, -30, 5, 30, 60, 380, 420, 700)]}
         tb, ab, mb = run_plain(spec, timeout=240)
         p = copy.deepcopy(spec)
         p["end"] = A._f(A._d(spec["end"]) + dt.timedelta(days=scn["ext"]))
